@@ -265,3 +265,20 @@ Proof.
   - left. exists m. split; [reflexivity|]. now apply Permutation_length_1_inv in P.
   - right. split; [reflexivity|]. rewrite <- L. cbn. lia.
 Qed.
+
+(* find_all(data_id=d, max_results=k): a duplicate-free part of the exact answer, of the asked size *)
+Theorem find_all_max_exact t d k : WF t ->
+  incl (lk_find_all_did_max t d k) (nodes_with (forest_of t) d) /\
+  NoDup (lk_find_all_did_max t d k) /\
+  length (lk_find_all_did_max t d k) =
+    (if Nat.eqb k 0 then length (nodes_with (forest_of t) d) else Nat.min k (length (nodes_with (forest_of t) d))).
+Proof.
+  intros H. assert (P := find_all_exact t H d). assert (ND := idx_group_nodup t H d).
+  assert (L := Permutation_length P). unfold lk_find_all_did in *. unfold lk_find_all_did_max.
+  destruct k as [|k]; cbn [Nat.eqb].
+  - refine (conj _ (conj ND L)). intros x Hx. now apply (Permutation_in _ P).
+  - refine (conj _ (conj _ _)).
+    + intros x Hx. apply (Permutation_in _ P). rewrite <- (firstn_skipn (S k) (idx_get d (idx t))). apply in_or_app. now left.
+    + rewrite <- (firstn_skipn (S k) (idx_get d (idx t))) in ND. now apply NoDup_app_l in ND.
+    + rewrite firstn_length, L. reflexivity.
+Qed.
